@@ -67,7 +67,7 @@ def host_script(target, rng, ncyc, *, payloads=None, p_valid=0.6, p_ready=0.7, p
         remaining = new_transfer(); cur = None
         # host
         hstate = "idle"; timer = rng.randint(0, 6); tok_ep = ep; tok_in = 1
-        busy = False; pending_ack = None; flush_hold = 0
+        busy = False; pending_ack = None; flush_hold = 0; awaiting = False
         for t in range(ncyc):
             c = dict(valid=0, last=0, flush=0, is_in=tok_in, rfr=0, new_token=0, ack=0, tx_ready=int(rng.random() < p_ready),
                      rcv=int(rng.random() < p_rcv), endpoint=tok_ep, clear_halt=0, payload=0)
@@ -94,15 +94,15 @@ def host_script(target, rng, ncyc, *, payloads=None, p_valid=0.6, p_ready=0.7, p
                         tok_ep, tok_in = ep, 1
                     c["endpoint"], c["is_in"] = tok_ep, tok_in
                     hstate = "token"; timer = rng.choice([1, 1, 2, 3])
-                    pending_ack = None
+                    pending_ack = None; awaiting = False
                 else:
                     timer -= 1
                     if pending_ack is not None:
                         if pending_ack == 0:
-                            c["ack"] = 1; pending_ack = None
+                            c["ack"] = 1; pending_ack = None; awaiting = False
                         else:
                             pending_ack -= 1
-                    if clear_halt and pending_ack is None and rng.random() < 0.04:
+                    if clear_halt and pending_ack is None and not awaiting and rng.random() < 0.06:
                         c["clear_halt"] = clr_word(1, rng.choice([1, 1, 1, 0]), rng.choice([ep, ep, ep, (ep + 1) % 16]))
             elif hstate == "token":
                 timer -= 1
@@ -136,7 +136,7 @@ def host_script(target, rng, ncyc, *, payloads=None, p_valid=0.6, p_ready=0.7, p
                 elif not o["tx_valid"] and timer <= 0:
                     busy = False; hstate = "idle"; timer = rng.randint(*poll_gap)
             if completed:
-                busy = False; hstate = "idle"
+                busy = False; hstate = "idle"; awaiting = True
                 timer = rng.choice([2, 3, 4, 6])
                 if c["rcv"] and rng.random() < p_ack:
                     pending_ack = rng.choice([0, 0, 1])
